@@ -1,5 +1,7 @@
 import Tmv.Lemmas.MConn
 import Tmv.Model.PeerMsgs
+import Tmv.Lemmas.PeerState
+import Tmv.Model.ReactorMsgs
 /-! # C17 — channel messages arrive intact and in order; bad peer input only drops the peer
 
 Model: `Tmv.Model.MConn` (p2p/conn/connection.go) and `Tmv.Model.PeerMsgs` (consensus message
@@ -197,7 +199,7 @@ theorem newBitArray_valid (n : Int) : BitArr.validateBasic (newBitArray n) = tru
     omega
 
 open Tmv.PeerMsgs in
-/-- `validated_handlers_in_bounds`, PARTIAL: every bit array that a message passing
+/-- message level (the peer-state level theorem is `validated_handlers_in_bounds` below): every bit array that a message passing
 `ValidateBasic` installs in the peer state (NewValidBlock.BlockParts → ProposalBlockParts,
 ProposalPOL.ProposalPOL, VoteSetBits.Votes via Update) is consistent, hence the handlers' and the
 gossip routines' `SetIndex` calls on it — with the non-negative indices they use: a validated
@@ -205,7 +207,7 @@ gossip routines' `SetIndex` calls on it — with the non-negative indices they u
 range. What is NOT modelled (and why this is `_partial`): the full `PeerRoundState` transition
 functions, `Sub`/`Or`/`Update`/`PickRandom` loops (they bound their loops by `len(Elems)` of
 both operands), and the other reactors (stream (b) exercises them). -/
-theorem validated_handlers_in_bounds_partial :
+theorem validated_message_arrays_indexable :
     (∀ m : NewValidBlock, m.valid = true → ∀ i : Int, 0 ≤ i → indexPanics m.parts i = false) ∧
     (∀ m : ProposalPOL, m.valid = true → ∀ i : Int, 0 ≤ i → indexPanics m.pol i = false) ∧
     (∀ m : VoteSetBits, m.valid = true → ∀ i : Int, 0 ≤ i → indexPanics m.votes i = false) ∧
@@ -250,5 +252,151 @@ theorem short_elems_would_panic :
 
 open Tmv.PeerMsgs in
 example : (NewValidBlock.valid ⟨1, 0, 81, 32, newBitArray 81⟩) = true := by decide
+
+/-! ## clause 4: the consensus peer state under ANY sequence of validated messages -/
+
+open Tmv.PeerMsgs Tmv.PeerState in
+/-- `validated_handlers_in_bounds`: start from a fresh `PeerState`; apply, in ANY order and number,
+the peer's messages that passed `ValidateBasic` (NewRoundStep, NewValidBlock, ProposalPOL, HasVote,
+VoteSetBits, Proposal, BlockPart, Vote) and the calls of the node's own gossip routines
+(`PickSendVote` on any of its vote sets or commits, the part-gossip and catch-up picks,
+`InitProposalBlockParts`), for ANY node round state (height, round, validator count, last-commit
+size, part count — bounded by `B`) and ANY index `PickRandom` may return. Then no modelled
+`BitArray` index use leaves `Elems`, no `make` gets a negative length, `PickRandom` never reads
+`Elems[-1]`, and every array of the peer state stays nil or consistent, non-empty and at most `B`
+bits — where `B` is any bound above `MaxBlockPartsCount`, `MaxVotesCount` and the node's own sizes.
+Not modelled: bit CONTENTS (no guard depends on them), the node's own vote sets / part sets
+(assumed consistent), the other reactors. -/
+theorem validated_handlers_in_bounds (B : Int) (hB1 : maxBlockPartsCount ≤ B) (hB2 : maxVotesCount ≤ B)
+    (ops : List Op) (hadm : ∀ op ∈ ops, op.admissible B) :
+    ∃ p, run {} ops = some p ∧ Inv B p :=
+  run_ok B hB1 hB2 ops {} (inv_init B) hadm
+
+open Tmv.PeerMsgs Tmv.PeerState in
+/-- non-vacuity: a hostile-but-valid sequence (round-step, a proposal claiming 1601 parts, a
+131-bit POL array, a has-vote with a huge index, a vote, gossip picks) runs through -/
+example : (run {} [
+    .newRoundStep ⟨1, 0, 1, -1⟩, .proposal 1 0 0 1601, .proposalPOL ⟨1, 0, newBitArray 131⟩,
+    .hasVote ⟨1, 0, 1, 2147483647⟩, .vote 1 4 0 1 0 1 3,
+    .pickSendVote ⟨1, 0, 2, 4, true⟩ (some 3), .gossipPart 1601 (some 1600), .catchupPart (some 7),
+    .newRoundStep ⟨2, 0, 1, 0⟩]).isSome = true := by decide
+
+open Tmv.PeerMsgs Tmv.PeerState in
+/-- why `ProposalMessage.ValidateBasic` must bound the part count: `SetHasProposal` sizes the peer's
+array with it (2^32-1 bits = 512 MB before the repair) -/
+theorem proposal_total_sizes_peer_array :
+    (setHasProposal { height := 1, round := 0 } 1 0 (-1) 4294967295).pbp =
+      some { bits := 4294967295, elems := 67108864 } := by decide
+
+open Tmv.PeerMsgs Tmv.PeerState in
+/-- why a stored array must be non-empty: `PickRandom` on a non-nil array without elements reads
+`Elems[-1]` (a validated VoteSetBits array may have size 0, it is never stored) -/
+theorem empty_array_pickRandom_panics :
+    pickRandomOk (some { bits := 0, elems := 0 }) = false ∧
+    BitArr.validateBasic (some { bits := 0, elems := 0 }) = true := by decide
+
+/-! ## clause 1, liveness of the send routine under a fair pick -/
+
+/-- A channel that owes the wire something and is picked IS served: `sendPacketMsg` with
+`pick = c.id` emits a packet of channel `c` (the choice rule cannot be bypassed by the
+`isSendPending` pass). -/
+theorem picked_pending_channel_is_served (s : Sender) (t : Trace) (h : SInv s t) (c : SChan)
+    (hc : c ∈ s.chans) (hne : rest s.maxSize c ≠ []) :
+    ∃ p, (sendPacketMsg s c.id).2 = some p ∧ p.chId = (c.id : Int) :=
+  step_pick_serves s t h c hc hne
+
+/-- `every accepted message is eventually on the wire`, with the hypothesis it needs: let `ops1`
+be ANY history (TrySends, send-routine steps, any picks) and `c` a channel owing `n` packets after
+it. Let `ops2` be ANY continuation — more TrySends on any channel, steps with any picks — in which
+the send routine's choice falls on `c` at least `n` times (FAIRNESS; the real rule picks the
+least recentlySent/priority ratio, which is not modelled). Then every message accepted on `c`
+during `ops1` is completely on the wire after `ops2`: the channel's wire stream starts with the
+packetisation of those messages, in acceptance order. Without the fairness hypothesis the claim is
+false (a schedule that never picks `c` while other channels stay busy starves it). -/
+theorem fair_pick_transmits (mx : Nat) (hmx : 0 < mx) (ds : List Desc) (hnd : (ds.map (·.id)).Nodup)
+    (ops1 ops2 : List SOp) (c : SChan)
+    (hc : c ∈ (runOps (Sender.new mx ds) {} ops1).1.chans)
+    (hfair : (rest mx c).length ≤ picksOf c.id ops2) :
+    ∃ extra, proj c.id (runOps (runOps (Sender.new mx ds) {} ops1).1 (runOps (Sender.new mx ds) {} ops1).2 ops2).2.wire =
+      (delivered c.id (runOps (Sender.new mx ds) {} ops1).2.acc).flatMap (packetize mx) ++ extra :=
+  fair_pick_transmits_lemma mx hmx ds hnd ops1 ops2 c hc hfair
+
+/-- non-vacuity: channel 2 owes 2 packets after `ops1`; in `ops2` channel 1 keeps receiving new
+messages and is picked in between, channel 2 is picked twice: its message is out -/
+example :
+    let ds : List Desc := [⟨1, 4, 8⟩, ⟨2, 4, 8⟩]
+    let st1 := runOps (Sender.new 2 ds) {} [.send 2 [9, 9, 9], .send 1 [1]]
+    let ops2 := [SOp.step 1, .send 1 [2, 2, 2], .step 2, .step 1, .send 1 [3], .step 2, .step 1]
+    (st1.1.chans.map fun c => (rest 2 c).length) = [1, 2] ∧ picksOf 2 ops2 = 2 ∧
+    proj 2 (runOps st1.1 st1.2 ops2).2.wire = [(false, [9, 9]), (true, [9])] := by decide
+
+/-! ## the other reactors: sizes, indices and height arithmetic a peer's message decides -/
+
+open Tmv.ReactorMsgs in
+/-- blockchain v0: a StatusResponse that passed `ValidateMsg` (any int64 base/height) keeps the
+pool's height arithmetic inside int64: `maxPeerHeight` stays non-negative, `maxPeerHeight - 1`
+(IsCaughtUp) does not underflow and `height + len(requesters)` (makeNextRequester) does not
+overflow as long as the node's own height leaves room for `maxTotalRequesters` requesters. -/
+theorem blockchain_status_arith_in_bounds (p : Pool) (base height : Int)
+    (hv : (BcMsg.statusResponse base height).valid = true) (hh : inInt64 height)
+    (hp0 : 0 ≤ p.maxPeerHeight) (hp1 : inInt64 p.maxPeerHeight)
+    (hown : 0 ≤ p.height ∧ p.height + maxTotalRequesters ≤ int64Max) (hreq : p.requesters ≤ maxTotalRequesters) :
+    0 ≤ (setPeerRange p height).maxPeerHeight ∧ inInt64 (setPeerRange p height).maxPeerHeight ∧
+    inInt64 (caughtUpOperand (setPeerRange p height)) ∧ inInt64 (nextHeight (setPeerRange p height)) ∧
+    0 ≤ base ∧ base ≤ height := by
+  have hb : 0 ≤ base ∧ 0 ≤ height ∧ base ≤ height := by
+    simp only [BcMsg.valid] at hv
+    by_cases c1 : base < 0 <;> simp only [c1, if_true, if_false] at hv
+    · cases hv
+    by_cases c2 : height < 0 <;> simp only [c2, if_true, if_false] at hv
+    · cases hv
+    by_cases c3 : base > height <;> simp only [c3, if_true, if_false] at hv
+    · cases hv
+    omega
+  have hmt : (maxTotalRequesters : Int) = 600 := by decide
+  have hreq' : (p.requesters : Int) ≤ 600 := by rw [← hmt]; exact_mod_cast hreq
+  unfold inInt64 int64Max at *
+  unfold setPeerRange caughtUpOperand nextHeight
+  by_cases c : height > p.maxPeerHeight
+  · simp only [c, if_true]; omega
+  · simp only [c, if_false]; omega
+
+open Tmv.ReactorMsgs in
+example : (BcMsg.statusResponse 0 int64Max).valid = true ∧ (BcMsg.statusResponse 5 4).valid = false := by decide
+
+open Tmv.ReactorMsgs in
+/-- statesync: a chunk that `chunkQueue.Add` stores has the snapshot's height and format and an
+index below the snapshot's chunk count (any uint32 index, uint64 height in the message) -/
+theorem statesync_chunk_index_in_bounds (s : Snapshot) (height format index : Nat)
+    (h : chunkAccepted s height format index = true) :
+    index < s.chunks ∧ height = s.height ∧ format = s.format := by
+  unfold chunkAccepted at h
+  split at h
+  · cases h
+  split at h
+  · cases h
+  split at h
+  · cases h
+  omega
+
+open Tmv.ReactorMsgs in
+example : chunkAccepted ⟨7, 1, 3⟩ 7 1 2 = true ∧ chunkAccepted ⟨7, 1, 3⟩ 7 1 4294967295 = false := by decide
+
+open Tmv.ReactorMsgs in
+/-- pex: the number of addresses one PexAddrs message can carry is bounded by the channel's
+`RecvMessageCapacity` (= maxAddressSize * maxGetSelection, enforced by `recv_buffer_bounded`)
+divided by the smallest encoded address; and a peer's third request inside one interval is
+refused (the first two are free by construction of `receiveRequest`) -/
+theorem pex_addrs_count_bounded (count minAddr msgLen : Nat) (hmin : 0 < minAddr)
+    (henc : count * minAddr ≤ msgLen) (hcap : msgLen ≤ pexMaxMsgSize) :
+    count ≤ pexMaxMsgSize / minAddr ∧ pexMaxMsgSize = 64000 := by
+  refine ⟨?_, by decide⟩
+  have : count * minAddr ≤ pexMaxMsgSize := Nat.le_trans henc hcap
+  exact (Nat.le_div_iff_mul_le hmin).mpr this
+
+open Tmv.ReactorMsgs in
+theorem pex_third_request_refused :
+    (pexReceiveRequest 0).2 = true ∧ (pexReceiveRequest (pexReceiveRequest 0).1).2 = true ∧
+    (pexReceiveRequest (pexReceiveRequest (pexReceiveRequest 0).1).1).2 = false := by decide
 
 end Tmv.Props.C17
